@@ -336,6 +336,9 @@ class Kernel(object):
             else:
                 res = self.real_resolved_parent(vs)
             vol = self.volume_of_resolved(res)
+            binds = getattr(self, 'binds', None) or ()
+            while vol in binds and vol != '/':
+                vol = self.volume_of_resolved(posixpath.dirname(vol) or '/')
             t = list(st)
             t[2] = 0x3000 + self.mounts.index(vol)
             return os.stat_result(t, st.__reduce__()[1][1])
@@ -369,7 +372,10 @@ class Kernel(object):
         if not p.startswith('/'):
             p = posixpath.join(self.cur.cwd, p)
         real = self.v(self._orig_realpath(self.root + p))
-        return real in self.mounts
+        # a bind mount of a directory of the same file system (world['binds']) is in the mount table and in the partition
+        # listing, and rename(2) across it fails with EXDEV, but st_dev is that of the enclosing volume and the inode differs
+        # from the parent's: os.path.ismount() says False
+        return real in self.mounts and real not in (getattr(self, 'binds', None) or ())
 
     # ---- the op pipeline -------------------------------------------------
     def begin(self, name, vs, extra=None, vs2=None, cls=None):
